@@ -108,6 +108,19 @@ static void md_fields(uint64_t seed, uint64_t n, int64_t v, std::string &client,
 	req_time = (v & 8) ? (int64_t)(1600000000000000LL + (int64_t)n) : -1;
 }
 
+// user-defined leaf processors (KSI_TreeBuilderLeafProcessor): processor k answers its n-th call with a fresh hash node of the
+// level of the node it is shown; the builder joins it on the left and the level rises by the declared overhead of 1
+struct ProcCtx { KSI_CTX *ctx; uint64_t seed; int k; uint64_t ctr; };
+static std::string proc_imprint(uint64_t seed, int k, uint64_t n) { return imprint(1, "tb-proc-" + std::to_string(seed) + "-" + std::to_string(k) + "-" + std::to_string(n)); }
+static int proc_fn(KSI_TreeNode *in, void *c, KSI_TreeNode **out) {
+	ProcCtx *p = (ProcCtx *)c;
+	KSI_DataHash *dh = sdk::hash_from_imprint(p->ctx, proc_imprint(p->seed, p->k, p->ctr++));
+	if (!dh) return KSI_OUT_OF_MEMORY;
+	int res = KSI_TreeNode_new(p->ctx, dh, NULL, in->level, out);
+	KSI_DataHash_free(dh);
+	return res;
+}
+
 struct TreeSim {
 	const run::Plan &plan;
 	KSI_CTX *ctx = nullptr;
@@ -124,6 +137,11 @@ struct TreeSim {
 		if (KSI_TreeBuilder_new(ctx, (KSI_HashAlgorithm)alg, &b) != KSI_OK) { K.inconclusive = true; return; }
 		int maxlvl = (int)plan.c("maxlevel", 0);
 		b->maxTreeLevel = (short)maxlvl;
+		int nprocs = (int)(plan.c("procs", 0) % 3);
+		ProcCtx pctx[2] = {{ctx, plan.seed, 0, 0}, {ctx, plan.seed, 1, 0}};
+		KSI_TreeBuilderLeafProcessor procs[2] = {{proc_fn, &pctx[0], 1}, {proc_fn, &pctx[1], 1}};
+		for (int k = 0; k < nprocs; k++) if (KSI_TreeBuilderLeafProcessorList_append(b->cbList, &procs[k]) != KSI_OK) { K.inconclusive = true; KSI_TreeBuilder_free(b); return; }
+		if (nprocs) K.count("probe.leaf_processors");
 		RefForest model; model.alg = alg;
 		std::vector<Leaf> leaves;
 		bool closed = false;
@@ -133,7 +151,7 @@ struct TreeSim {
 			if (op.k == "TB_ADD" && !closed) {
 				int level = (int)op.arg(0);
 				Leaf lf; lf.level = level;
-				int64_t mdv = op.arg(3) % 16;       // > 0: a metadata leaf with this field variant
+				int64_t mdv = nprocs ? 0 : op.arg(3) % 16;       // > 0: a metadata leaf with this field variant
 				KSI_DataHash *dh = nullptr; KSI_MetaData *md = nullptr;
 				if (mdv > 0) {
 					std::string cl, ma; int64_t sq, rt;
@@ -148,8 +166,13 @@ struct TreeSim {
 				// would the model accept it?
 				RefForest trial = model;
 				bool fits = level >= 0 && level <= 255;
-				if (fits && maxlvl > 0 && (level > maxlvl || model.highest(level) > maxlvl)) fits = false;
-				if (fits) { RNode nd; nd.imp = lf.imp; nd.level = level; nd.md = lf.md; fits = trial.insert(nd); }
+				if (fits && level + nprocs > 255) fits = false;
+				if (fits && maxlvl > 0 && (level > maxlvl || model.highest(level + nprocs) > maxlvl)) fits = false;
+				if (fits) {
+					RNode nd; nd.imp = lf.imp; nd.level = level; nd.md = lf.md;
+					for (int k = 0; k < nprocs; k++) { RNode pn; pn.imp = proc_imprint(plan.seed, k, pctx[k].ctr); pn.level = nd.level; nd = rjoin(pn, nd, alg); }
+					fits = trial.insert(nd);
+				}
 				if (fits) { RNode r; fits = trial.root(r) || true; }
 				int fail_idx = (int)op.arg(2); // > 0: the n-th allocation inside this add fails
 				if (fail_idx > 0) { A.reset_counter(); A.fail_at = {(uint64_t)fail_idx}; A.armed = true; }
@@ -727,6 +750,7 @@ struct HistoryEngine : run::Engine {
 					if (g.chance(1, 40)) p.ops.push_back({"TB_CLOSE", {}});
 				}
 				p.ops.push_back({"TB_CLOSE", {}});
+				p.cfg["procs"] = g.chance(1, 3) ? (int64_t)g.range(1, 2) : 0;
 			} else {
 				p.cfg["masking"] = (int64_t)g.below(2);
 				p.cfg["aggr_http"] = (int64_t)g.below(2);
